@@ -175,6 +175,8 @@ func (vc *FuncVC) callStatic(st *State, fn *ssa.Function, args []Val, binds []Va
 	}
 	con := vc.g.DB.Funcs[name]
 	if con != nil && !con.Inline {
+		vc.curBinds = binds
+		defer func() { vc.curBinds = nil }()
 		return vc.applyContract(st, con, name, fn, fn.Signature, args, resT, false)
 	}
 	depth := 0
@@ -261,6 +263,15 @@ func (vc *FuncVC) calleeVars(con *Contract, fn *ssa.Function, sig *types.Signatu
 		for i, p := range fn.Params {
 			if i < len(args) {
 				vars[p.Name()] = SV{V: args[i], T: p.Type()}
+			}
+		}
+		for i, fv := range fn.FreeVars {
+			if i < len(vc.curBinds) {
+				sv := SV{V: vc.curBinds[i], T: fv.Type()}
+				if pt, ok := fv.Type().Underlying().(*types.Pointer); ok {
+					sv.Deref = pt.Elem()
+				}
+				vars[fv.Name()] = sv
 			}
 		}
 		if pk := fnPkg(fn); pk != nil && pkg == "" {
@@ -718,6 +729,14 @@ func (vc *FuncVC) intrinsic(st *State, name string, fn *ssa.Function, args []Val
 			return one(BoolV(ok))
 		}
 	}
+	if name == "(*sync.WaitGroup).Wait" && len(st.spawned) > 0 {
+		// fork-join: the effects of every goroutine started by this function are complete (and unknown) here
+		for _, sp := range st.spawned {
+			vc.havocEffects(st, sp)
+		}
+		st.g.note("fork-join abstraction: goroutines started by a function are summarised by their contract's modifies clause at the go statement and at WaitGroup.Wait")
+		return one(unit)
+	}
 	switch name {
 	case "(*sync.Mutex).Lock", "(*sync.Mutex).Unlock", "(*sync.WaitGroup).Add", "(*sync.WaitGroup).Done", "(*sync.WaitGroup).Wait",
 		"(*sync.RWMutex).Lock", "(*sync.RWMutex).Unlock", "time.Sleep", "runtime.Gosched", "runtime.GC":
@@ -794,4 +813,84 @@ func (g *Gen) sortOfHeapName(h string) (string, bool) {
 		}
 	}
 	return "", false
+}
+
+type spawnRec struct {
+	con  *Contract
+	name string
+	vars map[string]SV
+	pkg  string
+}
+
+func (vc *FuncVC) havocEffects(st *State, sp spawnRec) {
+	if sp.con == nil || sp.con.ModAll {
+		for _, h := range sortedKeys(st.g.heapSort) {
+			if h != "$alive" && h != "$brk" {
+				st.havocHeap(h)
+			}
+		}
+		return
+	}
+	pre := make(map[string]string, len(st.heaps))
+	for k, v := range st.heaps {
+		pre[k] = v
+	}
+	env := &SpecEnv{g: st.g, st: st, heaps: pre, old: st.old, vars: sp.vars, pkg: sp.pkg}
+	for _, m := range sp.con.Modifies {
+		vc.havocItem(st, env, m, sp.name)
+	}
+}
+
+// goStmt: "go f(args)". The callee's precondition is an obligation of the spawning function; its effects are
+// havocked here and again at WaitGroup.Wait (fork-join abstraction).
+func (vc *FuncVC) goStmt(st *State, g *ssa.Go) {
+	c := &g.Call
+	var args []Val
+	for _, a := range c.Args {
+		args = append(args, st.val(a))
+	}
+	var fn *ssa.Function
+	var binds []Val
+	if !c.IsInvoke() {
+		switch v := c.Value.(type) {
+		case *ssa.Function:
+			fn = v
+		default:
+			fv := st.val(c.Value)
+			if fv.Clo != nil {
+				fn = fv.Clo.Fn.(*ssa.Function)
+				binds = fv.Clo.Binds
+			}
+		}
+	}
+	st.g.note("go statements are not executed: the spawned function is verified separately against its contract")
+	if fn == nil {
+		st.spawned = append(st.spawned, spawnRec{})
+		vc.havocEffects(st, spawnRec{})
+		return
+	}
+	name := ShortName(fn)
+	con := vc.g.DB.Funcs[name]
+	if con == nil {
+		st.g.note("goroutine " + name + " has no contract: all heaps havocked at go and at Wait")
+		st.spawned = append(st.spawned, spawnRec{name: name})
+		vc.havocEffects(st, spawnRec{})
+		return
+	}
+	vc.curBinds = binds
+	vars, pkg := vc.calleeVars(con, fn, fn.Signature, args, false)
+	vc.curBinds = nil
+	vc.usedContracts[name] = con
+	env := st.specEnv(pkg, vars)
+	for _, r := range con.Requires {
+		t, err := env.Bool(r.E)
+		if err != nil {
+			vc.errs = append(vc.errs, fmt.Sprintf("go %s requires[%s]: %v", name, r.Label, err))
+			continue
+		}
+		st.oblige(fmt.Sprintf("go[%s].requires[%s]", name, r.Label), t, r.Src)
+	}
+	sp := spawnRec{con: con, name: name, vars: vars, pkg: pkg}
+	st.spawned = append(st.spawned, sp)
+	vc.havocEffects(st, sp)
 }
